@@ -1178,6 +1178,18 @@ def r13_builder_exclusion_and_unknown_keys(rule, root=None):
         for fam in fams:
             if fam not in seen:
                 rule.lost("the block of register_shape that registers %s*" % fam)
+    # the positional vec2 -> vec3 promotion: (x, y) from the 2-vector, z from the field's default
+    fe = A.find_fn(SHAPES, "from_enum_map", root=root)
+    v3 = [s_ for s_ in A.find(fe["body"], "Struct") if (A.path_segs(s_["path"]) or [None])[-1] == "Vec3"]
+    if len(v3) != 1:
+        rule.lost("the Vec3 built by the vec2 -> vec3 promotion in from_enum_map")
+    else:
+        f_ = {x_["name"]: str(A.ftxt(x_["e"])) for x_ in v3[0]["fields"]}
+        mx, my, mz = (re.fullmatch(r"(\w+)\.([xyz])", f_.get(k_, "")) for k_ in "xyz")
+        if mx and my and mz and mx.group(2) == "x" and my.group(2) == "y" and mz.group(2) == "z" and mx.group(1) == my.group(1) and mz.group(1) != mx.group(1):
+            rule.ok("a positional 2-vector is promoted as (v.x, v.y, default.z)", file=SHAPES, line=v3[0]["ln"])
+        else:
+            rule.bad("promotion|vec2-vec3", "from_enum_map promotes a 2-vector to %s; it must be (v.x, v.y) of the 2-vector with z from the field's default" % f_, A.where(SHAPES, v3[0]))
     for name in ("build_from_map", "build_transform"):
         fn = A.find_fn(SHAPES, name, root=root)
         loops = [l_ for l_ in A.find(fn["body"], "For") if ".keys()" in str(A.ftxt(l_["iter"])) and "is not present" in A.unparse(l_)]
@@ -1220,5 +1232,5 @@ def run(ctx):
     ctx.guarded(r, r_vector_operators)
     r = ctx.rule("R12", "positional constructors report every argument no field takes (nothing is silently dropped)", 2)
     ctx.guarded(r, r_leftover_arguments)
-    r = ctx.rule("R13", "a specialised positional builder excludes the ordered one; both map forms reject unknown keys for every map", 6)
+    r = ctx.rule("R13", "a specialised positional builder excludes the ordered one; both map forms reject unknown keys for every map; positional vec2 -> vec3 promotion", 7)
     ctx.guarded(r, r13_builder_exclusion_and_unknown_keys)
